@@ -300,19 +300,27 @@ def outcome_sites(body):
     Returns list of dicts {bb, kind, ...}: kind in Ok/Err/Some/None/Continue/Break/
     residual (the `?` error edge) / call (forwarded result of a call) / use / other."""
     out = []
-    # return-value temporaries (`let __ret = ..; return __ret` of async_trait, `let res = ..; res`):
-    # locals that are moved whole into _0
+    # return-value temporaries (`let __ret = ..; return __ret` of async_trait, `let res = match ..; res`):
+    # a local moved whole into _0 at a point where several of its definitions reach (a join) stands for _0:
+    # its definitions are the outcome sites.  With a single reaching definition the move itself is the site.
     rets = {0}
+    rd = None
     changed = True
     while changed:
         changed = False
-        for bb, s in body.stmts():
-            if s["k"] == "assign" and s["rv"]["k"] == "use":
-                l, p = norm_place(s["place"])
-                pl = op_place(s["rv"]["op"])
-                if l in rets and p == () and pl and pl[1] == () and pl[0] not in rets and pl[0] > body.arg_count:
-                    rets.add(pl[0])
-                    changed = True
+        for bb, blk in enumerate(body.blocks):
+            if blk["cleanup"]:
+                continue
+            for i, s in enumerate(blk["stmts"]):
+                if s["k"] == "assign" and s["rv"]["k"] == "use":
+                    l, p = norm_place(s["place"])
+                    pl = op_place(s["rv"]["op"])
+                    if l in rets and p == () and pl and pl[1] == () and pl[0] not in rets and pl[0] > body.arg_count:
+                        if rd is None:
+                            rd = ReachingDefs(body)
+                        if len(rd.defs_of(pl[0], (), bb, i)) > 1:
+                            rets.add(pl[0])
+                            changed = True
     for bb, blk in enumerate(body.blocks):
         if blk["cleanup"]:
             continue
